@@ -224,7 +224,8 @@ CHECKS['C16'] = dict(
           'outside both signatures is dropped by the changed-models filter, i.e. neither simulated nor lowered '
           '(C16_skip); what is loaded for a list of pending labels on a database is the concatenation of what each label '
           'ships for that database - SQL file there, else Python module (C16_labels_load_independently, flag handling '
-          'read from the source: C16_source_found_reset; counterexample for a flag that sticks). On the real code: every split of 2-3 generated models over two SQLite files by a router, '
+          'read from the source: C16_source_found_reset; counterexample for a flag that sticks); the SQL of new models is '
+          'generated on the connection of the database being evolved (C16_source_create_models_pass_database). On the real code: every split of 2-3 generated models over two SQLite files by a router, '
           'creation and a generated evolution with mutations on both sides, each database evolved in turn: tables, '
           'stored signatures, and a byte-for-byte unchanged snapshot of the database that is not being evolved; a '
           'failing evolution on the non-default database must roll back there (finding F10, repaired by a fix: commit).'),
@@ -239,7 +240,9 @@ CHECKS['C10'] = dict(
           'recorded migrations are never executed, nothing is recorded twice, execution follows chain order, afterwards '
           'the whole chain is recorded and a further run marks and executes nothing (C10_second_run_noop); the stored '
           'signature lists exactly the recorded migrations of its own app when the setter matches on the app label '
-          '(C10_signature_lists_exactly, key read from the source: C10_source_applied_migrations_key). On the real '
+          '(C10_signature_lists_exactly, key read from the source: C10_source_applied_migrations_key); a model that enters '
+          'the app in the hand-over release gets its table because the decision goes by the method before the run '
+          '(C10_handover_new_model_gets_table, C10_source_new_models_by_orig_method). On the real '
           'code: apps with k evolutions then MoveToDjangoMigrations(mark_applied=prefix S) and an in-memory chain of m '
           'migrations, every S, start states fresh / each earlier evolution / already migrated, alone and next to an '
           'evolution-only app (all 54 parameter combinations in the thorough tier): signal order, recorder rows, stored '
